@@ -99,6 +99,11 @@ func c10Hostile(target string) []c10Doc {
 			d("comments-cdata", c10Rep("<!--", 10000)+c10Rep("<![CDATA[", 5000)+c10Rep("-->", 100)+"<a href=after>"),
 			d("svg-math-nest", c10Rep("<svg><math><mtext><svg><foreignObject><math><mi>", 1500)+"<a href=x>"),
 			d("select-table-nest", c10Rep("<select><table><template><frameset>", 3000)),
+			// letters whose upper/lower-case forms differ in byte length (Ⱥ Ⱦ 2->3, İ 2->3, ẞ 3->2, K 3->1) in every attribute a
+			// case-insensitive search might look at: offsets computed on a case-folded copy do not fit the original
+			d("case-length", `<meta http-equiv="refresh" content="ȺȺȺȺȺȺ http;url="><meta http-equiv="Refresh" content="0;URL=http://example.org/ⱥ"><meta content="ȾȾȾȾȾȾȾȾ HTTP://EXAMPLE.ORG/İ" http-equiv="REFRESH">`+
+				`<a href="ȺȺȺȺ HTTP://example.org/" onclick="WINDOW.LOCATION='ȺȺȺȺȺȺȺȺ'">x</a><link rel="ȺLTERNATE" href="ẞẞẞ.css"><img src="KKKK.png" srcset="ȺȺȺ 1X, İİİ 2X"><div style="BACKGROUND:URL(ȺȺȺȺȺȺ)"></div>`+
+				`<base href="HTTP://ȺȺȺȺ.example/"><script type="APPLICATION/JSON">{"ȺȺȺ":"HTTP://example.org/ȾȾȾ"}</script>`),
 			// srcset / data-srcset values that are not well-formed candidate lists: unbalanced parentheses, commas inside
 			// URLs and descriptors, nothing but separators, descriptors without a URL
 			d("srcset-odd", `<img srcset="/a.jpg (1x"><img srcset="/a.jpg 300w (min-width: 10px"><source data-srcset="/b.jpg (((" srcset=")))"><img data-srcset="( /c.jpg 1x, /d.jpg (2x">`+
